@@ -18,6 +18,14 @@ class KernelError(Exception):
     """The replay could not evaluate an entry: invalid program (generator) or unsupported kernel."""
 
 
+class LiteralTypeMismatch(KernelError):
+    """The builder turned a Python literal into a constant of a definite element type that differs from the element type of
+    the tensor operand it is combined with (operands of these operators share one type variable): not the generator's doing."""
+
+
+_HOMOGENEOUS = {"Add", "Sub", "Mul", "Div", "Max", "Min", "Greater", "Less", "GreaterOrEqual", "LessOrEqual", "Equal", "Pow", "Mod"}
+
+
 class Env:
     def __init__(self, parent=None):
         self.d = {}
@@ -230,6 +238,12 @@ class Replayer:
         for i, o in enumerate(inputs):
             w = wired[i] if i < len(wired) else None
             ins.append(self._operand(o, w, env))
+        if e["op"] in _HOMOGENEOUS and e["domain"] in ("", "ai.onnx") and e["op"] != "Pow":
+            tens = [x for o, x in zip(inputs, ins) if "v" in o and isinstance(x, np.ndarray)]
+            for i, o in enumerate(inputs):
+                w = wired[i] if i < len(wired) else None
+                if "lit" in o and w is not None and w[0] == "const" and tens and isinstance(ins[i], np.ndarray) and ins[i].dtype != tens[0].dtype:
+                    raise LiteralTypeMismatch(f"{e['op']}: literal {o['lit']!r} became a {ins[i].dtype} constant next to a {tens[0].dtype} tensor")
         graphs = {k: a["graph"] for k, a in attrs_enc.items() if "graph" in a}
         attrs = {k: self._attr_value(a, attr_binding) for k, a in attrs_enc.items() if "graph" not in a}
         op, domain = e["op"], e["domain"]
